@@ -6,6 +6,7 @@ CONSTANTS
   BinOps <- MC_OpsFew
   Maps <- MC_MapsAll
   OnePairs <- MC_PairsDeep
+  Routes = {}
   MaxUnits = 3
   MinUnits = 0
   MaxDepth = 1
